@@ -8,7 +8,7 @@ import native as nat
 SRCS = ['Numerics.cpp', 'Integration.cpp', 'Special_Functions.cpp', 'Statistics.cpp', 'Linear_Algebra.cpp', 'Utilities.cpp']
 NATIVE_SRCS = ['Numerics.cpp', 'Special_Functions.cpp', 'Utilities.cpp', 'Linear_Algebra.cpp', 'Integration.cpp', 'Statistics.cpp', 'Natural_Units.cpp']
 KEEP = ['verif_c02_root', 'verif_c03_integrate', 'verif_c03_integrate_default', 'verif_c03_asi', 'verif_c03_find_epsilon', 'verif_c12_rw', 'verif_c12_gl_fab', 'verif_c12_gl_frw', 'verif_c12_gl_vrw',
-        'verif_c13_int1', 'verif_c13_int2', 'verif_c13_int3', 'verif_c13_int3sph', 'verif_c11_findmin', 'verif_c11_findmax', 'verif_c11_nm', 'verif_c14_mc', 'verif_c14_vegas', 'verif_c14_random_point']
+        'verif_c13_int1', 'verif_c13_int2', 'verif_c13_int3', 'verif_c13_int3sph', 'verif_c11_findmin', 'verif_c11_findmax', 'verif_c11_nm', 'verif_c14_mc', 'verif_c14_vegas', 'verif_c14_random_point', 'verif_c14_rebin']
 G = {}
 def module(ctx):
     if 'm' not in G: G['m'] = ctx.lower(SRCS, 'NUM.cpp', KEEP)
